@@ -13,7 +13,10 @@ C15  `_battery_manager.py`, `_pv_inverter_manager.py`, `_internal/_math.py`
     clauses, using the exception hierarchy of the client library written down in `MRO` below);
   * the expressions put into the `Success` / `PartialFailure` fields;
   * the PV water-filling loop: skip test, share, allocation, sort direction;
-  * the `is_close_to_zero` tolerance.
+  * the `is_close_to_zero` tolerance;
+  * the instance attributes that any method reachable from `distribute_power` assigns / deletes / mutates
+    (`batRequestStateWrites`, `pvRequestStateWrites`): one manager serves several requests concurrently, so these
+    are the only channel through which another request in flight could change a result.
 
 How the code is located (tolerant to behaviour-preserving rewrites, still read from the current source):
   * variables are identified by their *role* (parameter position, what is returned / passed to the result
@@ -1010,6 +1013,57 @@ def _pv(tree: ast.Module) -> tuple[dict[str, str], dict[str, str]]:
     return handling, exprs
 
 
+# ----------------------------------------------------------------------------- C15 per-request instance state
+def _self_root(n: ast.AST) -> str | None:
+    """`self.X`, `self.X[k]`, `self.X.y.z` -> "X"; anything else -> None."""
+    while isinstance(n, (ast.Subscript, ast.Attribute)):
+        if isinstance(n, ast.Attribute) and isinstance(n.value, ast.Name) and n.value.id == "self":
+            return n.attr
+        n = n.value
+    return None
+
+
+def _request_state_writes(tree: ast.Module, cname: str) -> list[str]:
+    """Instance attributes that the per-request code of a manager writes: every `self.X` that is assigned, deleted,
+    item-assigned or mutated through a mutating method (`.update`, `.add`, `.pop`, … — not `.send` on a channel) in a
+    method of the class reachable from `distribute_power` through `self.<method>` references.  The actor runs
+    `distribute_power` of ONE manager concurrently for requests with different component sets, so such an attribute is
+    shared between the requests in flight; an empty list means that a call can only see what `__init__` (or code
+    outside the request path) stored."""
+    cls = _find_class(tree, cname)
+    meths = {n.name: n for n in cls.body if isinstance(n, (ast.FunctionDef, ast.AsyncFunctionDef))}
+    seen: list[str] = []
+    todo = ["distribute_power"]
+    while todo:
+        m = todo.pop()
+        if m in seen or m not in meths:
+            continue
+        seen.append(m)
+        for x in ast.walk(meths[m]):
+            if isinstance(x, ast.Attribute) and isinstance(x.value, ast.Name) and x.value.id == "self" and x.attr in meths:
+                todo.append(x.attr)
+    if "distribute_power" not in seen:
+        raise Unsupported(f"{cname}.distribute_power not found")
+    writes: set[str] = set()
+    for m in seen:
+        for x in ast.walk(meths[m]):
+            if isinstance(x, (ast.Attribute, ast.Subscript)) and isinstance(x.ctx, (ast.Store, ast.Del)):
+                r = _self_root(x)
+                if r is not None:
+                    writes.add(r)
+            elif isinstance(x, ast.Call) and isinstance(x.func, ast.Attribute) and x.func.attr in MUTATORS \
+                    and x.func.attr != "send":
+                r = _self_root(x.func.value)
+                if r is not None:
+                    writes.add(r)
+            elif isinstance(x, ast.Call) and _src(x.func) in ("setattr", "delattr", "vars") and x.args \
+                    and _src(x.args[0]) == "self":
+                raise Unsupported(f"{cname}.{m}: `{_src(x)[:60]}` (instance state changed reflectively)")
+            elif isinstance(x, ast.Attribute) and isinstance(x.value, ast.Name) and x.value.id == "self" and x.attr == "__dict__":
+                raise Unsupported(f"{cname}.{m}: self.__dict__")
+    return sorted(writes)
+
+
 def _tolerance(tree: ast.Module) -> str:
     for n in tree.body:
         if isinstance(n, ast.FunctionDef) and n.name == "is_close_to_zero":
@@ -1035,6 +1089,8 @@ def generate(repo: pathlib.Path) -> str:
     bat_h, bat_e = _battery(trees[1])
     pv_h, pv_e = _pv(trees[2])
     tol = _tolerance(trees[3])
+    bat_w = "[" + ", ".join(f'"{w}"' for w in _request_state_writes(trees[1], "BatteryManager")) + "]"
+    pv_w = "[" + ", ".join(f'"{w}"' for w in _request_state_writes(trees[2], "PVManager")) + "]"
     pol_fields = ", ".join(f"{k} := {v}" for k, v in pol.items())
     bat_args = "(requestPower remaining failed : Rat)"
     pv_args = "(requestPower remaining failed target : Rat)"
@@ -1096,6 +1152,11 @@ def pvPfFailed {pv_args} : Rat := {pv_e["pvPfFailed"]}
 def pvPfExcess {pv_args} : Rat := {pv_e["pvPfExcess"]}
 def pvOkSucceeded {pv_args} : Rat := {pv_e["pvOkSucceeded"]}
 def pvOkExcess {pv_args} : Rat := {pv_e["pvOkExcess"]}
+
+/-! ## C15: instance attributes written by the per-request code (shared by the requests in flight) -/
+
+def batRequestStateWrites : List String := {bat_w}
+def pvRequestStateWrites : List String := {pv_w}
 
 end Extracted.Distributor
 """
